@@ -25,8 +25,10 @@ ShareCases ==
    \cup {[k1 |-> a, k2 |-> b, content |-> b, frag |-> "whole"] : a \in SKinds, b \in SKinds}
    \cup {[k1 |-> a, k2 |-> b, content |-> "doc", frag |-> "fragment"] : a \in SKinds, b \in SKinds}
 
-VARIABLES sc, sentry, sallow
-SInit == sc \in ShareCases /\ sentry \in {"data", "file"} /\ sallow \in BOOLEAN /\ (~sallow => sentry = "data")
-SNext == UNCHANGED <<sc, sentry, sallow>>
-SSpec == SInit /\ [][SNext]_<<sc, sentry, sallow>>
+(* the second reference spells the file name as the first does ("shared.json") or differently ("./shared.json": another string, the same file) *)
+Spellings == {"plain", "dotslash"}
+VARIABLES sc, sspell, sentry, sallow
+SInit == sc \in ShareCases /\ sspell \in Spellings /\ sentry \in {"data", "file"} /\ sallow \in BOOLEAN /\ (~sallow => (sentry = "data" /\ sspell = "plain"))
+SNext == UNCHANGED <<sc, sspell, sentry, sallow>>
+SSpec == SInit /\ [][SNext]_<<sc, sspell, sentry, sallow>>
 =============================================================================
